@@ -240,7 +240,9 @@ Definition walk_open (chk : Z -> Z -> list bytes -> prog (result unit ekind)) (f
                 fin st'
               else if nosym then ret_partial st (Some next) remaining (OsError ELOOP)
               else
-                r <- may_follow_link (w_cur st) next ;;
+                (* fs.protected_symlinks: every followed link, or (T0) only links in a trailing position *)
+                r <- (if EMU_PS_ONLY_TRAILING && negb (is_nil rest) then Ret (Ok tt)
+                      else may_follow_link (w_cur st) next) ;;
                 match r with
                 | Err e => bail st (Some next) e
                 | Ok _ =>
